@@ -74,7 +74,8 @@ class Gen:
         self.o = {"max_depth": 3, "max_sites": 22, "on_error": 0.3,
                   "switch": 0.12, "pipes": 0.3, "prefixes": 0.25,
                   "macros": 0.0, "pyforms": 0.0, "i18n": 0.0,
-                  "entities": 0.0, "code": 0.0, "mutlit": 0.0}
+                  "entities": 0.0, "code": 0.0, "mutlit": 0.0,
+                  "markers": 0.0}
         self.o.update(opts or {})
         self.nsite = 0
         self.sites: dict[str, dict] = {}     # str(k) -> default value spec
@@ -85,6 +86,7 @@ class Gen:
         self.twins: list[dict] = []       # prefixed expressions to repeat
         self.nmacro = 0
         self.nslot = 0
+        self.nmark = 0
         self.macro_stack: list[dict] = []     # macros being generated
         self.complete_macros: list[dict] = []  # {"name", "slots"}
         self.in_fill = 0
@@ -258,6 +260,9 @@ class Gen:
             else:
                 parts.append(["sexpr", self.probe("sinterp")])
         self._repeat_part(parts)
+        if self.o["markers"] and not self.macro_stack and not self.in_fill \
+                and not self.in_translate and ch.coin(0.35):
+            parts.append(["var", ch.pick(["w0", "w1", "g0", "g1"])])
         return {"t": "text", "parts": parts}
 
     def _repeat_part(self, parts: list) -> None:
@@ -372,6 +377,16 @@ class Gen:
                 self.nvar += 1
                 el["define"].append([ch.pick(["local", "local", "global", ""]),
                                      "v%d" % self.nvar, self.expr("define")])
+        if o["markers"] and not self.macro_stack and not self.in_fill and \
+                not is_macro and fill_slot is None and ch.coin(o["markers"]):
+            # a marker variable: literal value, few names (so that inner
+            # definitions shadow outer ones), read back by later text
+            self.nmark += 1
+            glob = ch.coin(0.2)
+            d = ["global" if glob else ch.pick(["", "local"]),
+                 ("g%d" if glob else "w%d") % ch.choose(2),
+                 {"k": "marker", "s": "k%d" % self.nmark}]
+            el["define"].insert(ch.choose(len(el["define"]) + 1), d)
         if budget_left and not in_switch and ch.coin(0.25):
             el["condition"] = self.expr("cond")
         if budget_left and not in_switch and ch.coin(0.2):
@@ -585,6 +600,8 @@ class Ser:
             self.occ[idx]["oid"] = e.get("oid")
         elif k == "lit":
             self.w(e["src"])
+        elif k == "marker":
+            self.w("'%s'" % e["s"])
         elif k == "load":
             self.w("load: " + e["file"])
         elif k == "pyform":
@@ -629,6 +646,8 @@ class Ser:
                 self.w("}")
             elif p[0] == "count":
                 self.w("${(%s.append(1), len(%s))[1]}" % (p[1], p[1]))
+            elif p[0] == "var":
+                self.w("${%s | 'unset'}" % p[1])
             else:
                 self.w("${structure: ")
                 self.expr(p[1], "interp")
